@@ -430,3 +430,41 @@ Proof.
   intros w h px py Hw Hh Hpx Hpy. cbv zeta. unfold fit_cloud_fixed, inner; cbn [fst snd].
   destruct (cloud_branch w h); unfold cloud_iw, cloud_ih, cloud_ix, cloud_iy; crunch.
 Qed.
+
+(* ---- pieces reused by C21 (the oval is limited once more by SizeToContent) ---- *)
+
+Lemma oval_inner_contains :
+  forall W H pw ph cr sr,
+    sqrt2f * pw <= W -> sqrt2f * ph <= H -> H_radius_b cr sr W H = true ->
+    let b := inner_oval cr sr W H in
+    Contains (pw * (1 - rho) - 2) (ph * (1 - rho) - 2) b /\ Inside W H b.
+Proof.
+  intros W H pw ph cr sr A B HR. cbv zeta.
+  unfold H_radius_b in HR. rewrite !andb_true_iff, !Qle_bool_iff in HR.
+  destruct HR as [[[R1 R2] R3] R4].
+  unfold inner_oval, Contains, Inside, bx, by_, bw, bh; cbn [fst snd].
+  ceil_facts. unfold rho, sqrt2f in *. inv_consts. repeat split; lra.
+Qed.
+
+Lemma limit_ar_integral (a b : Z) :
+  exists a' b', limit_ar (inject_Z a) (inject_Z b) ovalAR = (inject_Z a', inject_Z b').
+Proof.
+  unfold limit_ar. cases.
+  - destruct (roundQ_integral (inject_Z a / ovalAR)) as [z ->]. now exists a, z.
+  - destruct (roundQ_integral (inject_Z b / ovalAR)) as [z ->]. now exists z, b.
+  - now exists a, b.
+Qed.
+
+Lemma limit_ar_twice_grows (a b : Z) :
+  (0 <= a)%Z -> (0 <= b)%Z ->
+  let r1 := limit_ar (inject_Z a) (inject_Z b) ovalAR in
+  let r2 := limit_ar (fst r1) (snd r1) ovalAR in
+  inject_Z a <= fst r2 /\ inject_Z b <= snd r2.
+Proof.
+  intros Ha Hb. cbv zeta.
+  destruct (limit_ar_grows_integral a b Ha Hb) as [G1 G2].
+  destruct (limit_ar_integral a b) as (a' & b' & E). rewrite E in *. cbn [fst snd] in *.
+  rewrite <- Zle_Qle in G1, G2.
+  destruct (limit_ar_grows_integral a' b' ltac:(lia) ltac:(lia)) as [G3 G4].
+  rewrite Zle_Qle in G1, G2. split; lra.
+Qed.
